@@ -87,84 +87,137 @@ def shape_key(c):
     return tuple(e.sig() for e in c.chain)
 
 
+def canon_cell(c):
+    """guard + effect of a cell with the sentence/state atoms renamed to their roles (so that cells
+    of different grammar shapes can be compared structurally)"""
+    inv = {v: k for k, v in c.atoms.items() if v is not None}
+    pc = c.path.st.pc
+    sets = tuple(sorted((inv[a], s.iv) for a, s in pc.sets.items() if a in inv))
+    facts = []
+    for f in pc.facts:
+        if all(a in inv for a in f.atoms()):
+            facts.append((tuple(sorted((inv[a], k) for a, k in f.terms)), f.c))
+    stubs = stub_decisions(c)
+    return (sets, tuple(sorted(facts)), stubs, c.result, c.post_sid, c.post_s, c.post_D, c.delivered, bool(c.capacity), len(c.stores))
+
+
+_TASK = {}
+
+
+def _eval_task(args):
+    """one (shape group, id class, decode) block of the guard domain; returns violations"""
+    gi, ci, decode = args
+    cells, tier = _TASK["groups"][gi], _TASK["tier"]
+    v, K, N, S = domain(tier)
+    c0 = cells[0]
+    (cname, sp, sv, idv, id_equal) = id_classes(c0)[ci]
+    out = []
+    masks = []
+    for c in cells:
+        if c.capacity:
+            masks.append(None)
+            continue
+        mask, foreign = eval_guard(c, K, N, S, sp, sv, idv, decode)
+        masks.append(mask if mask.any() else None)
+    ncells = sum(1 for m in masks if m is not None)
+    npoints = 0
+    Sb = np.broadcast_to(S, (len(v),) * 3)
+    Kb = np.broadcast_to(K, (len(v),) * 3)
+    for (u_ok, p_ok) in ((True, True), (True, False), (False, True), (False, False)):
+        if not decode and (u_ok, p_ok) != (True, True):
+            continue
+        R = ref.reference(K, N, S, id_equal, decode, u_ok, p_ok)
+        # combined reference code; post_sid is irrelevant when the ids are equal
+        rsid = np.zeros_like(R["post_sid"]) if id_equal else R["post_sid"]
+        rcode = R["result"].astype(np.int32) * 1000 + R["post_D"] * 100 + R["delivered"] * 10 + rsid
+        rs_val = np.select([R["post_s"] == 0, R["post_s"] == 1], [Sb, Kb], 0)
+        cover = np.zeros(rcode.shape, dtype=np.int8)
+        for c, mask in zip(cells, masks):
+            if mask is None:
+                continue
+            cu, cp = stub_decisions(c)
+            if cu is not None and cu != u_ok:
+                continue
+            if cp is not None and cp != p_ok and u_ok:
+                continue
+            cover += mask
+            csid = 0 if id_equal else SID.get(c.post_sid, 9)
+            ccode = RES.get(c.result, 9) * 1000 + DD.get(c.post_D, 9) * 100 + DEL.get(c.delivered, 9) * 10 + csid
+            cs_val = {"s": Sb, "k": Kb, "0": 0}.get(c.post_s)
+            bad = mask & (rcode != ccode)
+            bad_s = mask & (rs_val != cs_val) if cs_val is not None else mask
+            for (b_, which) in ((bad, "effect"), (bad_s, "post_s")):
+                if b_.any():
+                    idx = tuple(np.argwhere(b_)[0])
+                    pt = (int(v[idx[0]]), int(v[idx[1]]), int(v[idx[2]]))
+                    names = ["result", "post_D", "delivered", "post_sid"] if which == "effect" else ["post_s"]
+                    for name in names:
+                        want = int(R[name][idx])
+                        got = describe_label(c, name)
+                        codes = {"result": RES, "post_D": DD, "delivered": DEL, "post_sid": SID, "post_s": SS}[name]
+                        if name == "post_sid" and id_equal:
+                            continue
+                        if name == "post_s" or codes.get(got, 9) != want:
+                            out.append(("v", "fsm/%s/got=%s/want=%s/at=k%d,n%d,s%d,%s,decode%d" % (name, got, want, pt[0], pt[1], pt[2], cname, decode),
+                                        "for fragment k=%d of n=%d with stored fragment number s=%d, ids %s, decode=%d: %s is %s, the reference machine says %s" % (
+                                            pt[0], pt[1], pt[2], cname, decode, name, got, ref_name(name, want)), gi))
+        npoints += cover.size
+        if (cover == 0).any():
+            idx = tuple(np.argwhere(cover == 0)[0])
+            pt = (int(v[idx[0]]), int(v[idx[1]]), int(v[idx[2]]))
+            out.append(("v", "fsm/uncovered/k%d,n%d,s%d,%s,decode%d,u%d,p%d" % (pt[0], pt[1], pt[2], cname, decode, u_ok, p_ok),
+                        "no extracted transition covers k=%d n=%d s=%d ids %s decode=%d (a panic or an unanalysed path)" % (pt[0], pt[1], pt[2], cname, decode), gi))
+        if (cover > 1).any():
+            idx = tuple(np.argwhere(cover > 1)[0])
+            pt = (int(v[idx[0]]), int(v[idx[1]]), int(v[idx[2]]))
+            out.append(("v", "fsm/overlap/k%d,n%d,s%d,%s" % (pt[0], pt[1], pt[2], cname), "two extracted transitions cover k=%d n=%d s=%d ids %s" % (pt[0], pt[1], pt[2], cname), gi))
+    return out, npoints, ncells, cname, decode
+
+
 def compare(ctx, chk, pid, cfg, tier):
     fsm = get_fsm(ctx, cfg)
-    v, K, N, S = domain(tier)
     groups = {}
     for c in fsm.cells:
         groups.setdefault(shape_key(c), []).append(c)
-    npoints = 0
-    ncells = 0
-    witness_samples = []
+    # the reassembly logic must not depend on the shape of the sentence (tag block, '!'/'$', empty
+    # channel): all shape groups with / without a sequence id must carry the same cells
+    by_id = {}
     for gk, cells in groups.items():
-        c0 = cells[0]
-        for (cname, sp, sv, idv, id_equal) in id_classes(c0):
+        sig = tuple(sorted(map(repr, (canon_cell(c) for c in cells))))
+        by_id.setdefault(cells[0].atoms["idv"] is not None, {}).setdefault(sig, []).append(cells)
+    reps = []
+    for has_id, sigs in by_id.items():
+        chk.ob(len(sigs) == 1, "%s/fsm/shape-dependent/%s/%d" % (pid, has_id, len(sigs)),
+               "reassembly [%s]: the transition relation differs between sentence shapes (%d variants among sentences %s a sequence id)" % (cfg, len(sigs), "with" if has_id else "without"))
+        for sig, lst in sigs.items():
+            reps.append(lst[0])
+    _TASK["groups"] = reps
+    _TASK["tier"] = tier
+    tasks = []
+    for gi, cells in enumerate(reps):
+        for ci in range(len(id_classes(cells[0]))):
             for decode in (0, 1):
-                for (u_ok, p_ok) in ((True, True), (True, False), (False, True), (False, False)):
-                    if not decode and (u_ok, p_ok) != (True, True):
-                        continue
-                    R = ref.reference(K, N, S, id_equal, decode, u_ok, p_ok)
-                    cover = np.zeros(R["result"].shape, dtype=np.int16)
-                    for c in cells:
-                        if c.capacity:
-                            continue        # no-alloc capacity error: outside the reference (C18)
-                        cu, cp = stub_decisions(c)
-                        if cu is not None and cu != u_ok:
-                            continue
-                        if cp is not None and cp != p_ok and u_ok:
-                            continue
-                        mask, foreign = eval_guard(c, K, N, S, sp, sv, idv, decode)
-                        if not mask.any():
-                            continue
-                        ncells += 1
-                        cover += mask
-                        lab = {"result": RES.get(c.result, -1), "post_sid": SID.get(c.post_sid, -1), "post_s": SS.get(c.post_s, -1),
-                               "post_D": DD.get(c.post_D, -1), "delivered": DEL.get(c.delivered, -1)}
-                        # 'id' and 'sid' denote the same value when the ids are equal; 'k' == 's' etc.
-                        for name, code in lab.items():
-                            want = R[name]
-                            bad = mask & (want != code)
-                            if name == "post_sid" and id_equal:
-                                bad = mask & False
-                            if name == "post_s":
-                                # tolerate equal values under different names (k == s, k == 0, s == 0)
-                                vals = {0: S, 1: K, 2: 0}
-                                gotv = np.broadcast_to(vals.get(code, -1), mask.shape)
-                                wantv = np.select([want == 0, want == 1, want == 2], [np.broadcast_to(S, mask.shape), np.broadcast_to(K, mask.shape), 0])
-                                bad = mask & (gotv != wantv)
-                            if name in ("post_D", "delivered", "post_sid", "post_s") and c.result in ("err:other",) and False:
-                                pass
-                            if bad.any():
-                                idx = np.argwhere(bad)[0]
-                                pt = (int(v[idx[0]]), int(v[idx[1]]), int(v[idx[2]]))
-                                chk.ob(False, "%s/%s/%s/got=%s/want=%s/at=k%d,n%d,s%d,%s,decode%d" % (pid, "fsm", name, describe_label(c, name), int(want[tuple(idx)]), pt[0], pt[1], pt[2], cname, decode),
-                                       "reassembly [%s]: for fragment k=%d of n=%d with stored fragment number s=%d, ids %s, decode=%d: %s is %s, the reference machine says %s" % (
-                                           cfg, pt[0], pt[1], pt[2], cname, decode, name, describe_label(c, name), ref_name(name, int(want[tuple(idx)]))),
-                                       {"cell_guard": c.path.st.pc.describe()[:40], "result": c.result})
-                            else:
-                                chk.ob(True)
-                    npoints += cover.size
-                    holes = cover == 0
-                    dup = cover > 1
-                    if holes.any():
-                        idx = np.argwhere(holes)[0]
-                        pt = (int(v[idx[0]]), int(v[idx[1]]), int(v[idx[2]]))
-                        chk.ob(False, "%s/fsm/uncovered/k%d,n%d,s%d,%s,decode%d,u%d,p%d" % (pid, pt[0], pt[1], pt[2], cname, decode, u_ok, p_ok),
-                               "reassembly [%s]: no extracted transition covers k=%d n=%d s=%d ids %s decode=%d (a panic or an unanalysed path)" % (cfg, pt[0], pt[1], pt[2], cname, decode))
-                    else:
-                        chk.ob(True)
-                    if dup.any():
-                        idx = np.argwhere(dup)[0]
-                        pt = (int(v[idx[0]]), int(v[idx[1]]), int(v[idx[2]]))
-                        chk.ob(False, "%s/fsm/overlap/k%d,n%d,s%d,%s" % (pid, pt[0], pt[1], pt[2], cname), "reassembly [%s]: two extracted transitions cover k=%d n=%d s=%d ids %s" % (cfg, pt[0], pt[1], pt[2], cname))
-                    if len(witness_samples) < 6:
-                        witness_samples.append({"shape_group": len(witness_samples), "ids": cname, "decode": decode, "points": int(cover.size)})
-    chk.cov["states"] = int(npoints)
-    chk.cov["transitions"] = int(ncells)
+                tasks.append((gi, ci, decode))
+    if tier == "thorough":
+        import multiprocessing as mp
+        with mp.get_context("fork").Pool(min(12, len(tasks))) as pool:
+            results = pool.map(_eval_task, tasks)
+    else:
+        results = [_eval_task(t) for t in tasks]
+    npoints = ncells = 0
+    for (out, npnt, nc, cname, decode) in results:
+        npoints += npnt
+        ncells += nc
+        for (_, key, msg, gi) in out:
+            chk.ob(False, "%s/%s" % (pid, key), "reassembly [%s]: %s" % (cfg, msg))
+        if not out:
+            chk.ob(True, sample={"ids": cname, "decode": decode, "points": npnt, "transitions": nc})
+    v = domain(tier)[0]
+    chk.cov["states"] = chk.cov.get("states", 0) + int(npoints)
+    chk.cov["transitions"] = chk.cov.get("transitions", 0) + int(ncells)
     chk.cov["grammar_shape_groups"] = len(groups)
     chk.cov["domain"] = "k,n,s in %s; id relation in {none/none, some/none, none/some, eq, lt, gt}; decode in {0,1}; unarmor/parse outcome in {ok,err}^2" % ("u8^3 (exhaustive)" if tier == "thorough" else "boundary classes %r ^3" % (list(map(int, v)),))
     chk.cov["exhaustive"] = tier == "thorough"
-    chk.samples += witness_samples
     return fsm
 
 
